@@ -41,7 +41,7 @@ def plan(tier):
     return {"cases": 5000 if tier == "quick" else 100000, "shards": 16, "case_timeout": 30, "shard_timeout": 3000,
             "min_nontrivial": 150,
             "min_counters": {"events_logged": 20000, "prefix_checks": 5000, "abs_bound_checks": 1500, "reevaluation_checks": 500,
-                             "build_checks": 3000, "pull_events": 5000}}
+                             "build_checks": 3000, "pull_events": 5000, "long_domain_cases_with_17_or_more_results": 30}}
 
 
 def setup(ctx):
@@ -61,6 +61,15 @@ def gen(rng, tier, ctx):
         spec = GEN.gen_core(rng, rich=True, allow_empty=True, max_depth=2, nv=1)
         spec["vars"][0]["dom"] = list(dict.fromkeys(rng.randrange(len(spec["world"])) for _ in range(rng.randint(0, 7))))
         spec["select"] = [["var", "x"]]
+        if rng.random() < 0.2:
+            # a long domain: laziness must not depend on how many elements were already handed out
+            more = G.gen_world(rng, n=rng.randint(30, 60))
+            n0 = len(spec["world"])
+            for o in more[n0:]:
+                o["ref"] = o["ref"] if o["ref"] is not None else rng.randrange(len(more))
+            spec["world"] = spec["world"] + more[n0:]
+            spec["vars"][0]["dom"] = rng.sample(range(len(spec["world"])), len(spec["world"]))
+            spec["long_domain"] = True
     elif fam == "nested2":
         world = G.gen_world(rng)
         vars_ = GEN.gen_vars(rng, world, 2, allow_empty=False)
@@ -422,6 +431,7 @@ def run(spec, ctx):
     # 3. absolute bounds
     if fam in ("single", "nested2") and not problems and total > 0:
         twin = G.make_world(spec, m)
+        C["long_domain_cases_with_17_or_more_results"] += bool(spec.get("long_domain")) and total >= 17
         if fam == "single":
             v = spec["vars"][0]
             T = getattr(m, v["type"])
